@@ -193,7 +193,7 @@ def correspond(ctx):
             if not ctx.thorough and len(svs) > 8:
                 # the loop-control and window-boundary variants are always kept, the others sampled
                 must = [kv for kv in svs if any(kv.get(k, kw0.get(k, e['params'].get(k))) != kw0.get(k, e['params'].get(k))
-                                                for k in ('tol', 'max_iter', 'smooth_half_window'))]
+                                                for k in ('tol', 'max_iter', 'smooth_half_window', 'num_eigens'))]
                 rest = [kv for kv in svs if kv not in must]
                 svs = must + [rest[i] for i in sorted(rng.choice(len(rest), min(len(rest), max(0, 10 - len(must))), replace=False))]
             for kwv in svs:
